@@ -14,6 +14,8 @@ def body(chk):
     # CLI options installed through Cucumber::with_cli() survive the builder methods called afterwards
     from checks import cucumber_builders
     cucumber_builders.obligations(chk, 'C08')
+    from checks import runner_builders
+    runner_builders.obligations(chk, 'C08', fields=('fail_fast',))
 
 
 if __name__ == '__main__':
